@@ -54,11 +54,13 @@ def edge_class_tag(pa, ev) -> str:
     for e in pa.events:
         if e is ev:
             break
-        if e.kind != 'cond' or e.d.get('synthetic') or '__name__' not in e.text:
+        if e.kind != 'cond' or e.d.get('synthetic'):
             continue
         ops = e.d.get('operands')
         if not ops:
             continue
+        if '__name__' not in e.text and not any(isinstance(v, tuple) and len(v) == 3 and v[0] == 'attr' and v[2] == '__name__' for v in (ops[1], ops[2]) if v):
+            continue            # (the class name may have been put in a local first)
         names = None
         for side in (ops[1], ops[2]):
             if side is None:
@@ -91,7 +93,9 @@ def check_tokens(r, w, root, fi, ps):
             bad_events.setdefault(id(ev), (ev, msg))
         for t in rep.toks:
             e = t.ev
-            tag = edge_class_tag(pa, e)
+            # (only in the single-reservation helpers _push_item / _pull_item, where the whole path is about one edge: the class the path has
+            #  established by its end names the case, wherever the dispatch stands relative to the reservation)
+            tag = edge_class_tag(pa, None) if len(rep.toks) == 1 and root.startswith(('_push', '_pull')) else ''
             if tag and not t.is_list:
                 # a reservation made under a dispatch on the edge class is named after that class, not after its position in the source:
                 # swapping the branches of the dispatch must not turn one site into another
